@@ -64,10 +64,13 @@ def n_sweep(tier):
 
 
 BIG_RETRIES = [(tr, ka, r) for tr in ("udp", "tcp") for ka in (False, True) for r in (1200, 3000)]
+# ... and a TCP peer that refuses / is unreachable for >1000 connection attempts of one request and then accepts
+BIG_CONNECT = [(ka, r, n, k) for ka in (False, True) for (r, n) in ((1500, 1099), (3000, 2500), (1200, 1201))
+               for k in ("refused", "unreach")]
 
 
 def n_cases(tier):
-    return n_sweep(tier) + N_RANDOM[tier] + len(BIG_RETRIES)
+    return n_sweep(tier) + N_RANDOM[tier] + len(BIG_RETRIES) + len(BIG_CONNECT)
 
 
 BATCH = 16
@@ -176,7 +179,17 @@ def make_case(tier, seed, index):
     ns = n_sweep(tier)
     if index >= ns + N_RANDOM[tier]:
         # a very large (legal) retry budget against a silent peer / a peer that only sends garbage
-        tr, ka, r = BIG_RETRIES[index - ns - N_RANDOM[tier]]
+        bi = index - ns - N_RANDOM[tier]
+        if bi >= len(BIG_RETRIES):
+            ka, r, n, k = BIG_CONNECT[bi - len(BIG_RETRIES)]
+            cf = {"k": k, "d": 0.0}
+            if k == "unreach":
+                cf["errno"] = 113
+            return {"kind": "bigretries", "transport": "tcp", "keep_alive": ka, "timeout": 0.25, "retries": r,
+                    "pre": 0, "level": "execute" if bi % 2 else "inverter",
+                    "cmd": {"op": "read", "reg": 35100, "count": 2 if bi % 2 else 1}, "script": [],
+                    "faults": [], "connects": [cf] * n, "default": {"k": "ok"}}
+        tr, ka, r = BIG_RETRIES[bi]
         garbage = (index % 2 == 1)
         return {"kind": "bigretries", "transport": tr, "keep_alive": ka, "timeout": 0.25, "retries": r, "pre": 0,
                 "level": "execute", "cmd": {"op": "read", "reg": 35100, "count": 2}, "script": [], "faults": [],
